@@ -306,6 +306,7 @@ def withG (s : St) (k : String) (f : Graph → J) : St × J :=
 def exec (s : St) (w : List String) : St × J :=
   match w with
   | ["reset"] => ({ slots := [] }, ok)
+  | ["reads", _] => (s, ok)        -- read-only calls: nothing changes in the model (nor may it in the code)
   | ["new", k, cls, rem] => (s.set (tokN k) (Graph.empty (cls == "1") (rem == "1")), ok)
   | ["add", k, u, v, t, e] => mutate s (tokN k) (fun g => g.addInteraction (tokN u) (tokN v) (tokI t) (tokI e))
   | "addfrom" :: k :: t :: e :: n :: rest =>
